@@ -11,7 +11,9 @@ EXPLANATION = (
     "assert, already-connected early return before any mutation, both puts dominated by len < 2 on both tables; (R5) the walk "
     "consumes the message exactly once on every path (inactive-owner drop / channel hand-over / final HandleMessageEvent for the "
     "owner of the last gate at now); (R6) sender id stamped on every send path, receiver id stamped before the handler; (R7) a "
-    "send is delayed iff send_time > now. Decides these necessary conditions only; not arrival-time sums over all chain shapes.")
+    "send is delayed iff send_time > now. "
+    '(R5 also: the gate whose owner receives the message is the gate the walk last entered; R7 also: sending on a gate handle (GateRef / GateRefWeak) sends on exactly that gate.) '
+    "Decides these necessary conditions only; not arrival-time sums over all chain shapes.")
 ASSUMPTIONS = ["gates are only wired through Gate::connect (slot table private)"]
 
 G = 'des::net::gate::'
